@@ -192,3 +192,11 @@ Definition chunkedRefused (guarded : bool) (atoMicro : option Z) (segDurMS : Z) 
 (** [int(math.Round(ato*1000))] for an offset given in microseconds (half away from zero) *)
 Definition roundMilli (atoMicro : Z) : Z :=
   if 0 <=? atoMicro then (atoMicro + 500) / 1000 else - ((- atoMicro + 500) / 1000).
+
+(** Since repair f0e7b4c the guard compares the offset rounded to milliseconds - the value the
+    chunk duration is computed from: [ato >= 0 && math.Round(ato*1000) < float64(SegmentDurMS)]. *)
+Definition chunkGuardRounded (atoMicro : option Z) (segDurMS : Z) : bool :=
+  match atoMicro with
+  | Some a => (0 <=? a) && (roundMilli a <? segDurMS)
+  | None => false
+  end.
